@@ -192,6 +192,7 @@ struct World {
     seq: u64,
     event_ids: Vec<String>,
     legacy: bool,
+    variant: String,
 }
 
 fn denom(s: &str) -> Denom {
@@ -234,14 +235,27 @@ impl World {
             asset_name.insert(denom(a).to_ibc_prefixed(), a.to_string());
         }
 
-        let mut fixture = Fixture::uninitialized(None).await;
+        let upg = variant == "upg";
+        let upgrades = if upg {
+            // Aspen (validator storage migration, price feed genesis) at height 4, Blackburn at 6:
+            // blocks 1–3 run on the pre-Aspen storage, the harness crosses both upgrades
+            Some(
+                astria_core::upgrades::test_utils::UpgradesBuilder::new()
+                    .set_aspen(Some(4))
+                    .set_blackburn(Some(6))
+                    .build(),
+            )
+        } else {
+            None
+        };
+        let mut fixture = Fixture::uninitialized(upgrades).await;
         let big: u128 = 1_000_000_000_000_000_000_000; // 10^21
         let accounts: Vec<(Address, u128)> = ["a0", "a1", "a2", "a3", "a4", "b0", "b1", "s", "i"]
             .iter()
             .map(|n| (astria_address(&name_addr[*n]), big))
             .collect();
         let init = fixture.chain_initializer().with_genesis_accounts(accounts);
-        let init = if legacy {
+        let init = if legacy || upg {
             // pre-Aspen storage keeps the whole validator set in one value
             init.with_genesis_validators(vec![
                 (ALICE.verification_key(), 10),
@@ -251,8 +265,8 @@ impl World {
             init
         };
         init.init().await;
-        let mut height = 1;
-        if !legacy {
+        let mut height = if upg { 0 } else { 1 };
+        if !legacy && !upg {
             let next = fixture.run_until_blackburn_applied().await;
             height = next.value() - 1;
         }
@@ -268,6 +282,7 @@ impl World {
             seq: 1,
             event_ids: vec![],
             legacy,
+            variant: variant.to_string(),
         };
         w.seed_state().await;
         w
@@ -795,6 +810,20 @@ impl World {
                 votes: vec![],
             },
         };
+        if self.variant == "upg" {
+            // the path finalize_block takes: due upgrades first, then begin_block
+            let block_data = super::BlockData {
+                misbehavior: vec![],
+                height: (self.height as u32).into(),
+                time,
+                next_validators_hash: tendermint::Hash::default(),
+                proposer_address: [0u8; 20].to_vec().try_into().unwrap(),
+            };
+            return match self.fixture.app.pre_execute_transactions(block_data).await {
+                Ok(_) => "ok -".to_string(),
+                Err(e) => format!("err:{e:#} -"),
+            };
+        }
         match self.fixture.app.begin_block(&begin_block).await {
             Ok(_) => "ok -".to_string(),
             Err(e) => format!("err:{e:#} -"),
@@ -1201,6 +1230,7 @@ struct Gen {
     view: View,
     event_no: u32,
     kept_no: u32,
+    val_bias: bool,
 }
 
 fn stat(s: &str) -> &'static str {
@@ -1268,6 +1298,12 @@ impl Gen {
         let to = (*self.rng.pick(&RECIPIENTS)).to_string();
         let fa = self.fee_asset(adversarial);
         let sudo = self.view.sudo.clone();
+        if group.is_none() && self.val_bias && self.rng.chance(45) {
+            let remove = self.rng.chance(35);
+            let key = *self.rng.pick(&["va", "vb", "vc", "v0", "v1", "v2"]);
+            let power = if remove { 0 } else { *self.rng.pick(&[1u32, 10, 25]) };
+            return (sudo, 4, format!("val,{key},{power}"));
+        }
         let g = group.unwrap_or_else(|| match self.rng.below(100) {
             0..=3 => 1,
             4..=15 => 2,
@@ -1606,7 +1642,11 @@ fn driver() {
         let sessions = if thorough { 60 } else { 12 };
         let blocks = if thorough { 40 } else { 16 };
         for s in 0..sessions {
-            let variant = if s % 3 == 2 { "legacy" } else { "std" };
+            let variant = match s % 4 {
+                2 => "legacy",
+                3 => "upg",
+                _ => "std",
+            };
             run_generated(&mut world, &mut trace, seed.wrapping_add(s as u64 * 7919), variant, blocks).await;
         }
     });
@@ -1623,6 +1663,7 @@ async fn run_generated(world: &mut Option<World>, trace: &mut Trace, seed: u64, 
         view: View::default(),
         event_no: 0,
         kept_no: 0,
+        val_bias: false,
     };
     let mut pending_exec: Vec<(String, usize)> = Vec::new();
     let prologue = [
@@ -1639,7 +1680,8 @@ async fn run_generated(world: &mut Option<World>, trace: &mut Trace, seed: u64, 
         g.view = view_of(res.split(" | ").nth(1).unwrap_or(""));
         trace.line(&format!("ledger {op} => {res}"));
     }
-    for _ in 0..blocks {
+    for blk in 0..blocks {
+        g.val_bias = variant == "upg" && blk < 7;
         let n = g.rng.range(1, 7);
         let mut i = 0;
         let mut queue: Vec<String> = vec!["begin".to_string()];
